@@ -85,13 +85,12 @@ func verifHosts(l *roundRobinLoadBalancer) []*Host { return l.hosts.Load().([]*H
 //@   modifies l.hosts
 
 // Constructors used by proxy.Run (fresh objects; no effect on the caller's state).
-//@ func proxycore.NewResolverWithDefaultPort
-//@   trusted
+//@ func proxycore.NewResolverWithDefaultPort [C20]
 //@   ensures result != nil
 //@   modifies nothing
 
-//@ func proxycore.NewPasswordAuth
-//@   trusted
+//@ func proxycore.NewPasswordAuth [C20]
+//@   ensures result != nil
 //@   modifies nothing
 
 // ---------------------------------------------------------------------------------------------
@@ -526,12 +525,12 @@ func verifHosts(l *roundRobinLoadBalancer) []*Host { return l.hosts.Load().([]*H
 //@   ensures closed-has-error: old(closed(c.closed)) ==> result != nil
 //@   modifies nothing
 
-//@ func proxycore.Conn.LocalAddr
-//@   trusted
+//@ func proxycore.Conn.LocalAddr [C17]
+//@   requires c != nil
 //@   modifies nothing
 
-//@ func proxycore.Conn.RemoteAddr
-//@   trusted
+//@ func proxycore.Conn.RemoteAddr [C17]
+//@   requires c != nil
 //@   modifies nothing
 
 // C19: Connect performs the TLS handshake (when the endpoint has a TLS configuration) before the CQL
@@ -542,8 +541,8 @@ func verifHosts(l *roundRobinLoadBalancer) []*Host { return l.hosts.Load().([]*H
 //@   modifies nothing
 //@ iface proxycore.Endpoint.IsResolved
 //@   modifies nothing
-//@ func proxycore.LookupEndpoint
-//@   trusted
+//@ func proxycore.LookupEndpoint [C17, C19]
+//@   requires endpoint != nil
 //@   modifies nothing
 
 //@ func proxycore.NewConn [C19]
